@@ -114,6 +114,16 @@ func (s *Style) comment() string {
 	return ";" + s.opt() + commentWords[s.R.Intn(len(commentWords))] + fmt.Sprint(s.R.Intn(100))
 }
 
+// assertLine writes an ;assert line; the blank after the keyword is optional when the condition starts with a
+// parenthesis or a sign
+func assertLine(s *Style, a Expr) string {
+	e := s.expr(a)
+	if e != "" && (e[0] == '(' || e[0] == '-' || e[0] == '+') && s.R.Intn(3) == 0 {
+		return ";assert" + e
+	}
+	return ";assert " + e
+}
+
 // Render writes the program as Redcode source text.
 func Render(p *Prog, s *Style) string {
 	var lines []string
@@ -190,9 +200,19 @@ func Render(p *Prog, s *Style) string {
 				}
 				emit(trail(head + s.kw("for") + s.gap() + s.expr(x.Count)))
 				for _, a := range x.Asserts {
-					emit(indent + ";assert " + s.expr(a))
+					emit(indent + assertLine(s, a))
 				}
-				renderItems(x.Body, indent+s.opt())
+				if len(x.Dead) > 0 && s.R.Intn(2) == 0 {
+					for _, l := range x.Dead {
+						emit(indent + l)
+					}
+					renderItems(x.Body, indent+s.opt())
+				} else {
+					renderItems(x.Body, indent+s.opt())
+					for _, l := range x.Dead {
+						emit(indent + l)
+					}
+				}
 				emit(trail(indent + s.opt() + s.kw("rof")))
 			case *Instr:
 				line := indent
@@ -249,7 +269,7 @@ func Render(p *Prog, s *Style) string {
 		emit(l)
 	}
 	for _, a := range p.Asserts {
-		emit(";assert " + s.expr(a))
+		emit(assertLine(s, a))
 	}
 	renderItems(items, "")
 	endLabels := ""
